@@ -4,7 +4,8 @@ from fractions import Fraction as Fr
 from ..nf import Rat, C
 from ..source import Unsupported, AnchorError
 from ..xlate import Interp, Frame, Obj, ListV, DictV, Raised, SumV, Elem, RankOrder, _RaisedExc
-from .common import same, show, coeff_vector, mix_opaque, sel_opaque, sub
+from .rxnfix import set_public, get_public
+from .common import same, show, coeff_vector, attached_models, attached_sum, sel_opaque, sub
 
 NASA = 'pmutt.empirical.nasa'
 SHO = 'pmutt.empirical.shomate'
@@ -19,9 +20,11 @@ def species_obj(I, repo, kind, misc):
                                                       'a_high': coeff_vector(I, 'hi', 7)})
     elif kind == 'Nasa9':
         seg = Obj('seg0', repo.cls(NASA + '.SingleNasa9'), attrs={'a': coeff_vector(I, 's', 9)})
-        o = Obj('sp', repo.cls(NASA + '.Nasa9'), attrs={'_nasas': ListV([seg])})
+        o = Obj('sp', repo.cls(NASA + '.Nasa9'))
+        set_public(I, o, 'nasas', ListV([seg]))
     else:
-        o = Obj('sp', repo.cls(SHO + '.Shomate'), attrs={'a': coeff_vector(I, 'a', 8), '_units': 'J/mol/K'})
+        o = Obj('sp', repo.cls(SHO + '.Shomate'), attrs={'a': coeff_vector(I, 'a', 8)})
+        set_public(I, o, 'units', 'J/mol/K')
     o.attrs.update({'name': 'sp', 'misc_models': misc})
     sel_opaque(o)
     return o
@@ -35,7 +38,7 @@ def bare(I, repo, kind, o, q, T):
     elif kind == 'Nasa9':
         m = repo.module(NASA)
         f = lambda qq: I.call_function(m, m.functions['get_nasa9_' + qq], [],
-                                       {'a': o.attrs['_nasas'].items[0].attrs['a'], 'T': T})
+                                       {'a': get_public(I, o, 'nasas').items[0].attrs['a'], 'T': T})
     else:
         m = repo.module(SHO)
 
@@ -58,35 +61,39 @@ def ranks(n):
 
 
 def summation(run, repo, max_len):
-    """generic vector of attached models (any number, any order): value = bare + sum over models, per element"""
+    """0-3 attached models (uninterpreted getters that record their arguments), through the package's own
+    aggregation: value = bare + sum over models, per element"""
     n = 0
     for kind in ('Nasa', 'Nasa9', 'Shomate'):
         for q in QS:
+          for k in (2, 0, 1, 3)[:4 if max_len > 3 else 3]:
             I = Interp(repo, order=RankOrder(ranks(max_len)))
-            mix_opaque(I)
             D = I.D
             P, x = D.sym('P'), D.sym('x')
-            o = species_obj(I, repo, kind, ListV([Obj('m0')]))
+            misc = attached_models(I, k, params=('T', 'P', 'x'))
+            o = species_obj(I, repo, kind, misc)
             owner, fn = repo.find_method(o.ci, 'get_' + q)
             run.fn(owner.qual + '.get_' + q)
             con = '%s.get_%s' % (kind, q)
+            tag = '' if k == 2 else ' (%d attached)' % k
 
-            def mixterm(meth, Tv):
-                return SumV(C(0), D.sym('MIX<get_%s|P=%r,T=%r,x=%r>' % (meth, P, Tv, x)))
+            def flat(v):
+                if isinstance(v, SumV):
+                    return v.scalar + v.elem if v.elem.iszero() else v
+                return v
 
             def want_at(Tv):
-                b = bare(I, repo, kind, o, q, Tv)
                 if q == 'GoRT':
-                    return I.binop('-', I.binop('+', bare(I, repo, kind, o, 'HoRT', Tv), mixterm('HoRT', Tv)),
-                                   I.binop('+', bare(I, repo, kind, o, 'SoR', Tv), mixterm('SoR', Tv)))
-                return I.binop('+', b, mixterm(q, Tv))
+                    return (bare(I, repo, kind, o, 'HoRT', Tv) + attached_sum(I, misc, 'HoRT', T=Tv, P=P, x=x)) - \
+                        (bare(I, repo, kind, o, 'SoR', Tv) + attached_sum(I, misc, 'SoR', T=Tv, P=P, x=x))
+                return bare(I, repo, kind, o, q, Tv) + attached_sum(I, misc, q, T=Tv, P=P, x=x)
             # scalar
             T = D.sym('T')
-            got = I.call_method(o, 'get_' + q, [], {'T': T, 'P': P, 'x': x})
-            run.check(same(got, want_at(T)), 'BRANCH-TWIN.scalar', con, 'scalar T',
+            got = flat(I.call_method(o, 'get_' + q, [], {'T': T, 'P': P, 'x': x}))
+            run.check(same(got, want_at(T)), 'BRANCH-TWIN.scalar', con, 'scalar T' + tag,
                       'value at a scalar temperature is %s, expected the bare polynomial plus the sum over every '
                       'attached model at the same T and conditions' % show(got, 200), owner.module, fn,
-                      sample='%s(T,P,x) == poly(T) + sum_models model.get_%s(T,P,x)' % (con, q))
+                      sample='%s(T,P,x) == poly(T) + sum_models model.get_%s(T,P,x)' % (con, q) if k == 2 else None)
             n += 1
             # arrays
             bad = None
@@ -98,14 +105,14 @@ def summation(run, repo, max_len):
                 if L == 1 and isinstance(got, (Rat, SumV)):
                     got = ListV([got])
                 ok = isinstance(got, ListV) and len(got) == L and \
-                    all(same(g, want_at(t)) for g, t in zip(got.items, Ts))
+                    all(same(flat(g), want_at(t)) for g, t in zip(got.items, Ts))
                 n += 1
                 if ok:
                     run.ok('BRANCH-TWIN.array', con)
                 elif bad is None:
                     bad = (L, got)
             if bad is not None:
-                run.fail('BRANCH-TWIN.array', con, 'array T',
+                run.fail('BRANCH-TWIN.array', con, 'array T' + tag,
                          'for an array of %d temperatures the result %s is not, element by element, the bare '
                          'polynomial plus the sum over every attached model evaluated at that element\'s temperature'
                          % (bad[0], show(bad[1], 260)), owner.module, fn)
@@ -171,7 +178,7 @@ def attachment(run, repo):
 
 
 def real_models(run, repo):
-    """real GasPressureAdj and PiecewiseCovEffect through the real _get_mix_quantity"""
+    """real GasPressureAdj and PiecewiseCovEffect through the real aggregation over misc_models"""
     n = 0
     for kind in ('Nasa', 'Nasa9', 'Shomate'):
         I = Interp(repo, order=RankOrder(dict(ranks(2), xcov=1, b1=5), const_ranks=True))
@@ -289,11 +296,11 @@ def reload_path(run, repo):
 
 def check(run, repo):
     run.explanation = (
-        'Nasa, Nasa9 and Shomate getters are interpreted abstractly (a) with the attached models as an uninterpreted '
-        'vector of any length and order: for scalar T and arrays of 1-3 (thorough 1-5) temperatures every element is '
+        'Nasa, Nasa9 and Shomate getters are interpreted abstractly (a) with 0-3 attached models whose getters are '
+        'uninterpreted and record their arguments, through the package\'s own aggregation: for scalar T and arrays of 1-3 (thorough 1-5) temperatures every element is '
         'the bare polynomial plus the sum over all attached models evaluated at that element\'s temperature and the '
         'same conditions; (b) with a real GasPressureAdj and a real PiecewiseCovEffect through the real '
-        '_get_mix_quantity in both orders: S = poly - ln P, H = poly + coverage energy/RT, Cp unchanged, G = H - S. '
+        'aggregation in both orders: S = poly - ln P, H = poly + coverage energy/RT, Cp unchanged, G = H - S. '
         'EmpiricalBase.__init__ is interpreted for 9 phase spellings x 7 forms of misc_models (none, empty, other '
         'models, adjustment present as object or as its serialised dictionary) x add_gas_P_adj on/off and the number '
         'of pressure adjustments in the result is counted. Direct to_dict/from_dict cycles (twice) must keep the '
